@@ -67,4 +67,8 @@ ContractRejectsCorrupted ==
     /\ ~ ENABLED Counts(N, Ones + 1, Zeros) /\ ~ ENABLED Counts(N + 1, Ones, Zeros)
     /\ ~ ENABLED SelectBatch("select1", [k \in 1..(Ones + 1) |-> k - 1], TRUE, [k \in 1..(Ones + 1) |-> 0])
     /\ Ones > 0 => ~ ENABLED SelectBatch("select1", [k \in 1..Ones |-> k - 1], FALSE, <<>>)
+    \* "not offered" is only what an implementation itself calls unimplemented, and only select0
+    /\ ~ ENABLED SelectNotOffered("select0", [k \in 1..(N + 1) |-> Refused], "range")
+    /\ ~ ENABLED SelectNotOffered("select1", [k \in 1..(N + 1) |-> Refused], "unimplemented")
+    /\ Zeros > 0 => ~ ENABLED SelectAll("select0", [k \in 1..(N + 1) |-> Refused])
 =============================================================================
